@@ -28,11 +28,12 @@ func init() {
 }
 
 type c10ev struct {
-	Op   string `json:"op"`             // define | use | cancel
-	Kind string `json:"kind,omitempty"` // use: named method closvar methval chanfn
-	Via  string `json:"via,omitempty"`  // use: eval evalctx host-eval host-sym
-	What string `json:"what,omitempty"` // cancel: busy blocked expired (as executed: expired-ran / expired-not)
-	K    int    `json:"k,omitempty"`    // cancel busy: park before operation k
+	Op    string `json:"op"`              // define | use | cancel
+	Kind  string `json:"kind,omitempty"`  // use: named method closvar methval chanfn
+	Via   string `json:"via,omitempty"`   // use: eval evalctx host-eval host-sym
+	What  string `json:"what,omitempty"`  // cancel: busy blocked expired (as executed: expired-ran / expired-not)
+	K     int    `json:"k,omitempty"`     // cancel busy: park before operation k
+	Entry string `json:"entry,omitempty"` // cancel: "" = EvalWithContext, exec = Compile + ExecuteWithContext
 }
 
 type c10use struct {
@@ -152,21 +153,50 @@ func MK() int {
 	f := func(x int) int { return x + k + 1 }
 	return f(21)
 }
+
+// named functions and methods used as VALUES inside a definition: passed as argument, stored in a
+// local variable, in a slice and in a struct field, a method value taken locally
+func Dbl(x int) int { return 2 * x }
+
+func Apply(f func(int) int, x int) int { return f(x) }
+
+type holder struct{ f func(int) int }
+
+func FA() int { return Apply(Dbl, 21) }
+
+func FV() int {
+	var g func(int) int = Dbl
+	return Apply(g, 20) + 2
+}
+
+func FR() int {
+	fs := []func(int) int{Dbl}
+	h := holder{f: Dbl}
+	return fs[0](11) + h.f(10)
+}
+
+func ML() int {
+	m := T0.M
+	return Apply(m, 37)
+}
 `
 
 var c10expr = map[string]string{"named": "F(2)", "method": "T0.M(2)", "closvar": "Clo(2)", "methval": "MV(2)", "chanfn": "CC()",
-	"chan-send": "CSend()", "chan-recv2": "CRecv2()", "chan-range": "CRange()", "chan-select": "CSel()", "mutex": "MU()", "callsother": "CO()", "mkclosure": "MK()"}
+	"chan-send": "CSend()", "chan-recv2": "CRecv2()", "chan-range": "CRange()", "chan-select": "CSel()", "mutex": "MU()", "callsother": "CO()", "mkclosure": "MK()",
+	"fv-arg": "FA()", "fv-var": "FV()", "fv-ret": "FR()", "fv-method": "ML()"}
 var c10name = map[string]string{"named": "F", "method": "T0.M", "closvar": "Clo", "methval": "MV", "chanfn": "CC",
-	"chan-send": "CSend", "chan-recv2": "CRecv2", "chan-range": "CRange", "chan-select": "CSel", "mutex": "MU", "callsother": "CO", "mkclosure": "MK"}
+	"chan-send": "CSend", "chan-recv2": "CRecv2", "chan-range": "CRange", "chan-select": "CSel", "mutex": "MU", "callsother": "CO", "mkclosure": "MK",
+	"fv-arg": "FA", "fv-var": "FV", "fv-ret": "FR", "fv-method": "ML"}
 var c10want = map[string]string{"named": "15", "method": "7", "closvar": "8", "methval": "7", "chanfn": "43",
-	"chan-send": "43", "chan-recv2": "43", "chan-range": "43", "chan-select": "43", "mutex": "43", "callsother": "21", "mkclosure": "42"}
+	"chan-send": "43", "chan-recv2": "43", "chan-range": "43", "chan-select": "43", "mutex": "43", "callsother": "21", "mkclosure": "42",
+	"fv-arg": "42", "fv-var": "42", "fv-ret": "42", "fv-method": "42"}
 
 // kinds whose body goes through a blocking channel construct (Y: Tick; Block; Tick, like CC)
 func c10isChan(k string) bool { return k == "chanfn" || strings.HasPrefix(k, "chan-") }
 
 // kinds without argument
 func c10noArg(k string) bool {
-	return c10isChan(k) || k == "mutex" || k == "callsother" || k == "mkclosure"
+	return c10isChan(k) || k == "mutex" || k == "callsother" || k == "mkclosure" || strings.HasPrefix(k, "fv-")
 }
 
 func c10show(v reflect.Value, err error) string {
@@ -197,6 +227,18 @@ func c10call(f reflect.Value, kind string) (s string) {
 		return "<results>"
 	}
 	return fmt.Sprint(out[0].Interface())
+}
+
+// c10guard runs one use under a watchdog: after a cancelled evaluation the interpreter must still answer.
+func c10guard(f func() string) (string, bool) {
+	ch := make(chan string, 1)
+	go func() { ch <- f() }()
+	select {
+	case s := <-ch:
+		return s, true
+	case <-time.After(c09ReturnBound):
+		return "<no answer within " + c09ReturnBound.String() + ">", false
+	}
 }
 
 func c10runHist(j c09job) (res c09res) {
@@ -246,27 +288,46 @@ func c10runHist(j c09job) (res c09res) {
 	for _, ev := range j.Hist {
 		switch ev.Op {
 		case "define":
-			if _, err := ip.Eval("Clo = func(x int) int { return 3*x + 2 }"); err != nil {
-				res.Err = "redefine: " + err.Error()
+			msg, answered := c10guard(func() string {
+				if _, err := ip.Eval("Clo = func(x int) int { return 3*x + 2 }"); err != nil {
+					return "redefine: " + err.Error()
+				}
+				// the host takes the new value without evaluating anything (Symbols reads the variable)
+				v := syms()["Clo"]
+				hostEval["closvar"], hostSym["closvar"] = v, v
+				return ""
+			})
+			if !answered {
+				res.HistEvents = append(res.HistEvents, ev)
+				res.Err, res.Runaway = "the interpreter hangs: redefinition of Clo: "+msg, true
 				return
 			}
-			// the host takes the new value without evaluating anything (Symbols reads the variable)
-			hostEval["closvar"] = syms()["Clo"]
-			hostSym["closvar"] = syms()["Clo"]
+			if msg != "" {
+				res.Err = msg
+				return
+			}
 		case "use":
 			var got string
 			expr := c10expr[ev.Kind]
+			answered := true
 			switch ev.Via {
 			case "eval":
-				got = c10show(ip.Eval(expr))
+				got, answered = c10guard(func() string { return c10show(ip.Eval(expr)) })
 			case "evalctx":
-				got = c10show(ip.EvalWithContext(bg, expr))
+				got, answered = c10guard(func() string { return c10show(ip.EvalWithContext(bg, expr)) })
 			case "host-eval":
 				expr = "host call of the value of " + c10name[ev.Kind]
-				got = c10call(hostEval[ev.Kind], ev.Kind)
+				got, answered = c10guard(func() string { return c10call(hostEval[ev.Kind], ev.Kind) })
 			case "host-sym":
 				expr = "host call of Symbols()[" + c10name[ev.Kind] + "]"
-				got = c10call(hostSym[ev.Kind], ev.Kind)
+				got, answered = c10guard(func() string { return c10call(hostSym[ev.Kind], ev.Kind) })
+			}
+			if !answered {
+				res.Uses = append(res.Uses, c10use{Expr: expr, Got: got, Want: c10want[ev.Kind]})
+				res.HistEvents = append(res.HistEvents, ev)
+				res.Err = "the interpreter hangs: " + expr + ": " + got
+				res.Runaway = true // the worker is replaced
+				return
 			}
 			res.Uses = append(res.Uses, c10use{Expr: expr, Got: got, Want: c10want[ev.Kind], Normal: got == c10want[ev.Kind], Zero: got == "0"})
 			// goroutines started by the use (the partner of CC's rendez-vous) end before the next event
@@ -342,12 +403,12 @@ func c10cancel(ip *interp.Interpreter, ev c10ev, nchan *int, gen *uint64, before
 	}
 	errc := make(chan error, 1)
 	go func() {
-		_, err := ip.EvalWithContext(ctx, src)
-		errc <- err
+		errc <- c09enter(ip, ctx, ev.Entry, src)
 	}()
 	if ev.What != "expired" {
 		tick := time.NewTicker(time.Millisecond)
 		still := 0
+		tw := time.Now()
 	wait:
 		for {
 			select {
@@ -360,6 +421,10 @@ func c10cancel(ip *interp.Interpreter, ev c10ev, nchan *int, gen *uint64, before
 				r.mu.Lock()
 				n := r.n
 				r.mu.Unlock()
+				if time.Since(tw) > c09ReturnBound {
+					tick.Stop()
+					return what, "the interpreter hangs: the evaluation to be cancelled (" + ev.What + ") neither runs nor ends; goroutines still alive"
+				}
 				if k != 0 || n == 0 {
 					continue
 				}
@@ -500,7 +565,7 @@ func (s *c10state) region(ev c10ev) string {
 }
 
 func c10gen(r *rng, stream string, maxLen int) []c10ev {
-	kinds := []string{"named", "method", "closvar", "methval", "chanfn", "chan-send", "chan-recv2", "chan-range", "chan-select", "mutex", "callsother", "mkclosure"}
+	kinds := []string{"named", "method", "closvar", "methval", "chanfn", "chan-send", "chan-recv2", "chan-range", "chan-select", "mutex", "callsother", "mkclosure", "fv-arg", "fv-var", "fv-ret", "fv-method"}
 	chans := []string{"chanfn", "chan-send", "chan-recv2", "chan-range", "chan-select"}
 	vias := []string{"eval", "evalctx", "host-eval", "host-sym"}
 	cancels := []string{"busy", "busy", "blocked", "expired", "in-def", "in-def"}
@@ -527,6 +592,9 @@ func c10gen(r *rng, stream string, maxLen int) []c10ev {
 			if ev.What == "in-def" {
 				ev.Kind = chans[r.intn(len(chans))]
 			}
+			if r.bool() {
+				ev.Entry = "exec" // Compile + ExecuteWithContext instead of EvalWithContext
+			}
 			if ev.What == "expired" && stream == "" && r.chance(50) {
 				continue
 			}
@@ -541,7 +609,8 @@ func c10gen(r *rng, stream string, maxLen int) []c10ev {
 
 func c10coq(h []c10ev) string {
 	k := map[string]string{"named": "KNamed", "method": "KMethod", "closvar": "KClosVar", "methval": "KMethVal", "chanfn": "KChanFn",
-		"chan-send": "KChanFn", "chan-recv2": "KChanFn", "chan-range": "KChanFn", "chan-select": "KChanFn", "mutex": "KNamed", "callsother": "KNamed", "mkclosure": "KNamed"}
+		"chan-send": "KChanFn", "chan-recv2": "KChanFn", "chan-range": "KChanFn", "chan-select": "KChanFn", "mutex": "KNamed", "callsother": "KNamed", "mkclosure": "KNamed",
+		"fv-arg": "KNamed", "fv-var": "KNamed", "fv-ret": "KNamed", "fv-method": "KNamed"}
 	v := map[string]string{"eval": "VEval", "evalctx": "VEvalCtx", "host-eval": "VHost", "host-sym": "VHost"}
 	c := map[string]string{"busy": "CBusy", "blocked": "CBlocked", "expired-ran": "CExpRan", "expired-not": "CExpNot", "in-def": "CInDef"}
 	var it []string
